@@ -50,10 +50,15 @@ Theorem C05_none_refuted :
 Proof. exact none_refuted. Qed.
 Print Assumptions C05_none_refuted.
 
-(** the CDATA-end sequence is rejected wherever it stands in element content ... *)
-Theorem C05_cdata_end_rejected : forall a b, lex_text (a ++ cdata_end ++ b) = BrokenText.
+(** the CDATA-end sequence is rejected wherever it stands in character data ... *)
+Theorem C05_cdata_end_rejected : forall a b rb cr acc,
+  fold_left (step Text) a start = Run (MNorm rb cr) acc ->
+  lex_text (a ++ cdata_end ++ b) = BrokenText.
 Proof. exact cdata_end_rejected. Qed.
 Print Assumptions C05_cdata_end_rejected.
+Example C05_ex_cdata_end : fold_left (step Text) [97]%N start = Run (MNorm 0 false) [97]%N
+  /\ lex_text ([97]%N ++ cdata_end ++ [98]%N) = BrokenText.
+Proof. split; reflexivity. Qed.
 
 (** ... and cannot occur in escaped text: no greater-than sign survives *)
 Theorem C05_cdata_end_absent : forall s, ~ In c_gt (sax_escape s) /\
